@@ -90,14 +90,14 @@ def split_context_transitions(ctx, u, sc, R):
     stack_is_str = 'basic_string' in (dtype(stack_v) or '')
     PE = PEval([u], max_depth=6)
     DELIM = ord(',')
-    chars = [ord(c) for c in "()[]{}<>'\"\\,a "]
+    chars = list(range(256))
     closers = {ord('('): ord(')'), ord('['): ord(']'), ord('{'): ord('}'), ord('<'): ord('>'), ord("'"): ord("'"), ord('"'): ord('"')}
     stacks_ = [b'', b')', b']', b'}', b'>', b"'", b'"', b")'", b'")', b']"']
     n_ok, bad, und = 0, None, None
     for stk in stacks_:
         for esc in (0, 1):
             for c in chars:
-                for (mx, have) in ((0, 0), (1, 0), (1, 1), (2, 1)):
+                for (mx, have) in (((0, 0), (1, 0), (1, 1), (2, 1)) if c == DELIM else ((0, 0),)):
                     prefix = b'pq'
                     text = prefix + bytes([c]) + b'r'
                     env = {sp['id']: PStr(text), dp['id']: DELIM, mp['id']: mx,
